@@ -158,6 +158,7 @@ def run_plan(w, cfg, faults, ref, tape, gens, then=None):
 
     kind = cfg["exec"]
     inproc = kind in ("call", "run", "map-seq", "map-thread", "async-thread")
+    pub = {fd["name"]: fd.get("public_name") or fd["name"] for fd in w["functions"]}  # the name pipefunc knows a function by
     with C.Scratch() as root, warnings.catch_warnings():
         warnings.simplefilter("ignore")
         sim = C.new_sim(tape, root, preempt=cfg["preempt"])
@@ -251,14 +252,14 @@ def run_plan(w, cfg, faults, ref, tape, gens, then=None):
                         return
                     # 2. annotated with function name and keyword arguments of a failing invocation
                     cands = [c for c in raised_calls if _exc_id(make_exc(_kind_of(fobjs, c))) == _exc_id(err)]
-                    if not any(_note_ok(err, c.fn, c.args) for c in cands):
+                    if not any(_note_ok(err, pub[c.fn], c.args) for c in cands):
                         V("attribution", "note-missing-or-incomplete",
                           {"notes": getattr(err, "__notes__", None), "failing_calls": [repr(c) for c in cands][:3]})
                     elif cfg.get("shared_exc") and inproc:
                         # one exception object raised by several failing invocations: every one of them that went
                         # through pipefunc's error handler before the call returned must have left its note
                         for c in cands:
-                            if not _note_ok(err, c.fn, c.args):
+                            if not _note_ok(err, pub[c.fn], c.args):
                                 V("attribution", "note-missing-for-a-failing-invocation",
                                   {"notes": getattr(err, "__notes__", None), "missing_for": repr(c), "failing_calls": [repr(x) for x in cands][:4]})
                                 break
@@ -312,7 +313,7 @@ def run_plan(w, cfg, faults, ref, tape, gens, then=None):
                         V("surface", "second-failure-exception-changed", {"got": repr(_exc_id(err2)) if err2 else None, "planned": repr(planned2)})
                         return
                     raised2 = [c for c in sim.calls[n0:] if c.raised]
-                    if not any(_note_ok(err2, c.fn, c.args) for c in raised2):
+                    if not any(_note_ok(err2, pub[c.fn], c.args) for c in raised2):
                         V("attribution", "second-failure-note-missing", {"notes": getattr(err2, "__notes__", None),
                                                                         "failing_calls": [repr(c) for c in raised2][:3]})
                         return
